@@ -28,6 +28,15 @@ import time
 ROOT = os.path.dirname(os.path.dirname(os.path.abspath(__file__)))
 LEAN = os.path.join(ROOT, "lean")
 HARNESS = os.path.join(ROOT, "harness")
+ALT_REPO = os.environ.get("GVERIF_REPO")  # testing aid: run the checks against a scratch copy of /repo
+if ALT_REPO:
+    # a patched copy of the harness crate whose path dependency points at the scratch repo
+    _alt = os.path.join(ROOT, "harness-alt")
+    os.makedirs(_alt, exist_ok=True)
+    subprocess.run(["rsync", "-a", "--delete", "--exclude", "target", HARNESS + "/", _alt + "/"], check=True)
+    _m = open(os.path.join(_alt, "Cargo.toml")).read().replace('path = "/repo"', f'path = "{ALT_REPO}"')
+    open(os.path.join(_alt, "Cargo.toml"), "w").write(_m)
+    HARNESS = _alt
 TARGET = os.environ.get("GVERIF_TARGET_DIR", os.path.join(HARNESS, "target"))
 GHARNESS = os.path.join(TARGET, "debug", "gharness")
 GDRIVER = os.path.join(LEAN, ".lake", "build", "bin", "gdriver")
@@ -143,8 +152,10 @@ def check_proofs(pid, props, thorough):
     """Returns (theorem records, failures:list[str])."""
     failures = []
     module = props.get("thm_module", f"GraafVerif.Thm.{pid}")
+    modules = module if isinstance(module, list) else [module]
+    module = " ".join(modules)
     theorems = props.get("theorems", [])
-    rc, out, err = sh(["lake", "build", module], cwd=LEAN, timeout=3000)
+    rc, out, err = sh(["lake", "build"] + modules, cwd=LEAN, timeout=3000)
     if rc != 0:
         failures.append(f"lake build {module} failed: " + (out + err)[-1500:])
     hits = source_scan()
@@ -154,7 +165,8 @@ def check_proofs(pid, props, thorough):
     if theorems and rc == 0:
         audit = os.path.join(LEAN, ".lake", f"audit_{pid}.lean")
         with open(audit, "w") as f:
-            f.write(f"import {module}\n")
+            for m_ in modules:
+                f.write(f"import {m_}\n")
             for t in theorems:
                 f.write(f"#print axioms {t}\n")
         rc2, out2, err2 = sh(["lake", "env", "lean", audit], cwd=LEAN, timeout=1200)
@@ -172,7 +184,7 @@ def check_proofs(pid, props, thorough):
             if not ok:
                 failures.append(f"theorem {t}: " + ("not found / did not check" if axioms is None else f"axioms {axioms}"))
         if thorough and rc == 0 and not failures:
-            rc3, out3, err3 = sh(["lake", "env", "leanchecker", module], cwd=LEAN, timeout=3000)
+            rc3, out3, err3 = sh(["lake", "env", "leanchecker"] + modules, cwd=LEAN, timeout=3000)
             if rc3 != 0:
                 failures.append(f"leanchecker {module}: " + (out3 + err3)[-800:])
     elif theorems:
@@ -596,7 +608,7 @@ def write_evidence(pid, tier, seed, props, thm_recs, recs, t0, violations, notes
     cov = {
         "obligations": len(thm_recs),
         "discharged": ok_thms,
-        "checker_cmd": f"cd {LEAN} && lake build {props.get('thm_module', 'GraafVerif.Thm.' + pid)} && lake env lean .lake/audit_{pid}.lean  (#print axioms of every property theorem; thorough: + lake env leanchecker)",
+        "checker_cmd": f"cd {LEAN} && lake build {' '.join(props['thm_module']) if isinstance(props.get('thm_module'), list) else props.get('thm_module', 'GraafVerif.Thm.' + pid)} && lake env lean .lake/audit_{pid}.lean  (#print axioms of every property theorem; thorough: + lake env leanchecker)",
         "trusted_base": props.get("trusted_base", []) + [
             "Lean 4.33.0 kernel; axioms allowed: propext, Classical.choice, Quot.sound (audited per theorem on every run)",
             "hand-written Lean model tied to /repo by the correspondence run reported below (gharness = real code, gdriver = compiled model)",
